@@ -635,7 +635,25 @@ def r_frame_errors_are_errors(ctx):
     c11.r7_frame_errors_are_errors(Renamed(ctx, "C10.R10", "a body with broken framing is refused with a 4xx before the handler runs"))
 
 
-RULES = [("C10.R10", r_frame_errors_are_errors), ("C10.R9", r9_unreadable_content_type_is_refused), ("C10.R8", r8_registration_guard_is_total), ("C10.R7", r7_numeric_range), ("C10.R6", r6_one_step_decode), ("C10.R1", r1_short_circuit), ("C10.R2", r2_tuples), ("C10.R3", r3_error_class), ("C10.R4", r4_panic_census), ("C10.R5", r5_content_type_gate)]
+def r11_undecodable_path_is_refused(ctx):
+    """`a path variable that cannot be decoded ... gets a 400 and the handler never runs`: the percent-decoding of a path segment is strict
+    (decode_utf8, whose failure is the 400), not lossy.  This is C03.R1, re-evaluated here (adversary change C10-I: `decode_utf8_lossy`
+    routed `/users/%ff` with U+FFFD in place of the bytes the client sent)."""
+    from . import c03
+    from .lib_c01 import Renamed
+    c03.r1_decode_once(Renamed(ctx, "C10.R11", "a path segment whose percent-escapes do not spell UTF-8 is refused (strict decoding, whose error is the 400), never repaired"))
+
+
+def r12_present_page_token_is_decoded(ctx):
+    """`a query string that cannot be decoded into the endpoint's declared type gets a 400`: a `page_token` parameter that is present is
+    decoded as a token, whatever its text; only an absent one selects the first page.  This is C14.R4, re-evaluated here (adversary
+    change C10-J: an empty `page_token=` was filtered out before the test and silently restarted the scan)."""
+    from . import c14
+    from .lib_c01 import Renamed
+    c14.r4_token_wins(Renamed(ctx, "C10.R12", "a page_token parameter that is present is decoded as a token (and refused if it is not one); only its absence selects the first page"), rid="C10.R12")
+
+
+RULES = [("C10.R12", r12_present_page_token_is_decoded), ("C10.R11", r11_undecodable_path_is_refused), ("C10.R10", r_frame_errors_are_errors), ("C10.R9", r9_unreadable_content_type_is_refused), ("C10.R8", r8_registration_guard_is_total), ("C10.R7", r7_numeric_range), ("C10.R6", r6_one_step_decode), ("C10.R1", r1_short_circuit), ("C10.R2", r2_tuples), ("C10.R3", r3_error_class), ("C10.R4", r4_panic_census), ("C10.R5", r5_content_type_gate)]
 
 _LOAD_BODY_HV = """            hv.to_str().map_err(|e| {
                 HttpError::for_bad_request(
